@@ -198,9 +198,9 @@ def bindRaw (p : P) (f : Nat → P) : P :=
 
 /-- `self.resolve(key).and_then(|p| T::from_primitive(p, self))` -/
 def bodyD (d : Desc) (T id : Nat) : P :=
-  bindRaw (rawP d id) fun i =>
-    match d.find i with
-    | some o => fromPrim d T i o.kind
+  bindRaw (rawP d id) fun _ =>      -- `rawP d id` only ever returns the primitive of `id`
+    match d.find id with
+    | some o => fromPrim d T id o.kind
     | none => errP "E"
 
 def toDoc (d : Desc) : Doc Val String := ⟨bodyD d, rawP d, decodeD d, "E"⟩
@@ -279,6 +279,51 @@ def pageP (root : R) (n : Nat) : P :=
   match root with
   | .ok (.cat _ (.tree _ _ ks _)) => pageLoop 16 ks 0 n
   | _ => errP "E"
+
+/-- the call kinds of the property -/
+inductive CallK where
+  | get (T id : Nat)
+  | resolve (id : Nat)
+  | sdata (id : Nat)
+  | rawimg (id : Nat)
+  | imgdata (id : Nat)
+  | page (n : Nat)
+
+def CallK.prog (d : Desc) (root : R) : CallK → P
+  | .get T id => getP T id
+  | .resolve id => rawP d id
+  | .sdata id => sdataP d id
+  | .rawimg id => rawimgP d id
+  | .imgdata id => imgdataP d id
+  | .page n => pageP root n
+
+/-! ### is a description inside the domain of the C12 / C13 theorems? (decidable; proved sound in
+`Lemmas/CacheDocWF.lean`) -/
+
+/-- the references a typed load of `id` loads in turn: its object stream, its /Parent, its /Pages -/
+def depsOf (d : Desc) (id : Nat) : List Nat :=
+  match d.find id with
+  | none => []
+  | some o =>
+    (match o.place with
+      | .inStm sid _ => [sid]
+      | _ => []) ++
+    (match o.kind with
+      | .pages p _ _ => if p = 0 then [] else [p]
+      | .page p => [p]
+      | .cat p => [p]
+      | _ => [])
+
+def rkF (d : Desc) : Nat → Nat → Nat
+  | 0, _ => 0
+  | f+1, id => (depsOf d id).foldl (fun m x => max m (rkF d f x + 1)) 0
+
+/-- depth of the typed loads below `id` (meaningful when there is no cycle) -/
+def rk (d : Desc) (id : Nat) : Nat := rkF d (d.objs.length + 1) id
+
+/-- every nested load goes to a reference of smaller rank: no cycle among typed loads -/
+def okRanks (d : Desc) : Bool :=
+  d.objs.all fun o => (depsOf d o.id).all fun x => decide (rk d x < rk d o.id)
 
 /-! ### canonical text of answers (compared with the harness' rendering of the real values) -/
 
